@@ -87,6 +87,15 @@ func pbfAbs(x int) int {
 	return x
 }
 
+// pbfCS: changeset ids are 64-bit: some of the generated ones do not fit 32 bits
+func pbfCS(cs int) int64 {
+	v := int64(pbfAbs(cs))
+	if v%4 == 3 {
+		v += 1 << 33
+	}
+	return v
+}
+
 func pbfStr(i int) int { return pbfAbs(i)%(len(pbfStrings)-1) + 1 }
 
 func pbfTagsKV(tags []PbfTag) (osm.Tags, []uint32, []uint32) {
@@ -119,7 +128,7 @@ func pbfBlockObjects(b PbfBlock) []osm.Object {
 			Lat: 1e-9 * float64(int64(b.LatOff)+gran*int64(n.Lat)),
 			Lon: 1e-9 * float64(int64(b.LonOff)+gran*int64(n.Lon))}
 		if b.DenseInfo {
-			o.Version, o.Timestamp, o.ChangesetID, o.UserID = pbfAbs(n.Ver), pbfTime(pbfAbs(n.TS), b.DateGran), osm.ChangesetID(pbfAbs(n.CS)), osm.UserID(pbfAbs(n.UID))
+			o.Version, o.Timestamp, o.ChangesetID, o.UserID = pbfAbs(n.Ver), pbfTime(pbfAbs(n.TS), b.DateGran), osm.ChangesetID(pbfCS(n.CS)), osm.UserID(pbfAbs(n.UID))
 			o.User = pbfStrings[pbfStr(n.User)]
 			if b.HasVis {
 				o.Visible = n.Vis
@@ -131,7 +140,7 @@ func pbfBlockObjects(b PbfBlock) []osm.Object {
 	for _, w := range b.Ways {
 		o := &osm.Way{ID: osm.WayID(pbfAbs(w.ID)), Visible: true}
 		if w.HasInfo {
-			o.Version, o.Timestamp, o.ChangesetID, o.UserID = pbfAbs(w.Ver), pbfTime(pbfAbs(w.TS), b.DateGran), osm.ChangesetID(pbfAbs(w.CS)), osm.UserID(pbfAbs(w.UID))
+			o.Version, o.Timestamp, o.ChangesetID, o.UserID = pbfAbs(w.Ver), pbfTime(pbfAbs(w.TS), b.DateGran), osm.ChangesetID(pbfCS(w.CS)), osm.UserID(pbfAbs(w.UID))
 			o.User = pbfStrings[pbfStr(w.User)]
 			if w.HasVis {
 				o.Visible = w.Vis
@@ -151,7 +160,7 @@ func pbfBlockObjects(b PbfBlock) []osm.Object {
 	for _, r := range b.Rels {
 		o := &osm.Relation{ID: osm.RelationID(pbfAbs(r.ID)), Visible: true}
 		if r.HasInfo {
-			o.Version, o.Timestamp, o.ChangesetID, o.UserID = pbfAbs(r.Ver), pbfTime(pbfAbs(r.TS), b.DateGran), osm.ChangesetID(pbfAbs(r.CS)), osm.UserID(pbfAbs(r.UID))
+			o.Version, o.Timestamp, o.ChangesetID, o.UserID = pbfAbs(r.Ver), pbfTime(pbfAbs(r.TS), b.DateGran), osm.ChangesetID(pbfCS(r.CS)), osm.UserID(pbfAbs(r.UID))
 			o.User = pbfStrings[pbfStr(r.User)]
 		}
 		for _, m := range r.Members {
@@ -175,7 +184,7 @@ func pbfDelta(vals []int64) []int64 {
 }
 
 func pbfInfo(ver, ts, cs, uid, user int, vis *bool) *pb.Info {
-	return &pb.Info{Version: proto.Int32(int32(pbfAbs(ver))), Timestamp: proto.Int64(int64(pbfAbs(ts))), Changeset: proto.Int64(int64(pbfAbs(cs))),
+	return &pb.Info{Version: proto.Int32(int32(pbfAbs(ver))), Timestamp: proto.Int64(int64(pbfAbs(ts))), Changeset: proto.Int64(pbfCS(cs)),
 		Uid: proto.Int32(int32(pbfAbs(uid))), UserSid: proto.Uint32(uint32(pbfStr(user))), Visible: vis}
 }
 
@@ -216,7 +225,7 @@ func pbfPrimitiveBlock(b PbfBlock) []byte {
 		di := &pb.DenseInfo{}
 		for _, n := range b.Nodes {
 			ids, lats, lons = append(ids, int64(n.ID)), append(lats, int64(n.Lat)), append(lons, int64(n.Lon))
-			tss, css = append(tss, int64(pbfAbs(n.TS))), append(css, int64(pbfAbs(n.CS)))
+			tss, css = append(tss, int64(pbfAbs(n.TS))), append(css, pbfCS(n.CS))
 			uids, usids = append(uids, int32(pbfAbs(n.UID))), append(usids, int32(pbfStr(n.User)))
 			di.Version = append(di.Version, int32(pbfAbs(n.Ver)))
 			di.Visible = append(di.Visible, n.Vis)
